@@ -1043,6 +1043,15 @@ class Fn:
     def translate(self):
         node = self.node
         a = node.args
+        # defaults and decorators do not enter the translation (every call site passes all arguments), but
+        # they are recorded in the generated text, so that a change of either shows up in the comparison
+        dflt = [ast.unparse(d) for d in a.defaults]
+        note = ''
+        if dflt:
+            note += '; Python defaults of the last %d parameters: %s' % (len(dflt), ', '.join(dflt))
+        if node.decorator_list:
+            note += '; decorators: %s' % ', '.join(ast.unparse(d) for d in node.decorator_list)
+        self.sig_note = getattr(self, 'sig_note', '') or note
         if a.vararg or a.kwarg or a.kwonlyargs or a.posonlyargs:
             self.fail(node, 'argument kinds')
         names = [x.arg for x in a.args]
@@ -1115,7 +1124,7 @@ class Fn:
                    'abbrev %s.Ret := %s\n\n' % (q, ret_ty) +
                    ''.join(l + '\n' for l in self.loops) +
                    'def %s.main (F : Nat) (st : %s.St) : Flow %s.St %s.Ret :=\n%s\n\n' % (q, q, q, q, main) +
-                   '/-- `%s(%s)`; `F` bounds the iterations of every loop -/\n' % (q, ', '.join(n for n, _ in self.params)) +
+                   '/-- `%s(%s)`; `F` bounds the iterations of every loop%s -/\n' % (q, ', '.join(n for n, _ in self.params), self.sig_note) +
                    'def %s (F : Nat) %s : Option %s.Ret :=\n' % (q, ' '.join('(%s : %s)' % (lname(n), LEAN_TY[t]) for n, t in self.params), q) +
                    '  Flow.run (%s.main F { %s })\n' % (q, ', '.join('%s := %s' % (lname(n), lname(n)) for n, _ in self.params)))
         return '\n'.join(out)
@@ -1300,9 +1309,11 @@ class ClassTranslator(Translator):
                     params.append((p_, 'rat'))
                 elif k == 'int':
                     params.append((p_, 'int'))
+            dfl = [ast.unparse(d) for d in node.args.defaults]
             node.args.args = [ast.arg(arg=n_) for n_, _ in params]
             node.args.defaults = []
             fn = Fn(self, lname_, node, params)
+            fn.sig_note = ('; Python signature %s.%s(%s), defaults: %s' % (cls, meth, ', '.join(argn), ', '.join(dfl))) if dfl else ''
             fn.kinds = kinds
             fn.self_fields = ['self_' + f_ for f_ in fields]
             self.sigs = {}
